@@ -378,11 +378,37 @@ impl<T: ?Sized> RwLock<T> {
             }
         }
     }
+    pub fn try_read(&self) -> TryLockResult<RwLockReadGuard<'_, T>> {
+        let id = self.id();
+        point(id);
+        match self.inner.try_read() {
+            Ok(g) => Ok(RwLockReadGuard { g: Some(g), id }),
+            Err(TryLockError::Poisoned(p)) => Err(TryLockError::Poisoned(PoisonError::new(RwLockReadGuard { g: Some(p.into_inner()), id }))),
+            Err(TryLockError::WouldBlock) => Err(TryLockError::WouldBlock),
+        }
+    }
+    pub fn try_write(&self) -> TryLockResult<RwLockWriteGuard<'_, T>> {
+        let id = self.id();
+        point(id);
+        match self.inner.try_write() {
+            Ok(g) => Ok(RwLockWriteGuard { g: Some(g), id }),
+            Err(TryLockError::Poisoned(p)) => Err(TryLockError::Poisoned(PoisonError::new(RwLockWriteGuard { g: Some(p.into_inner()), id }))),
+            Err(TryLockError::WouldBlock) => Err(TryLockError::WouldBlock),
+        }
+    }
     pub fn get_mut(&mut self) -> LockResult<&mut T> {
         self.inner.get_mut()
     }
     pub fn is_poisoned(&self) -> bool {
         self.inner.is_poisoned()
+    }
+    pub fn clear_poison(&self) {
+        self.inner.clear_poison()
+    }
+}
+impl<T> From<T> for RwLock<T> {
+    fn from(t: T) -> Self {
+        RwLock::new(t)
     }
 }
 impl<T: ?Sized> std::ops::Deref for RwLockReadGuard<'_, T> {
